@@ -462,8 +462,8 @@ func discharge(obls []*Obligation, timeout int, verbose bool) {
 	}
 	wg.Wait()
 	// Second chance for undecided obligations (timeout/unknown, never for a refutation): a loaded or slower
-	// machine must not turn a solver timeout into an alarm.  They are re-run two at a time with four times the
-	// budget and every solver started at once.  The number retried is capped, so a change that breaks many
+	// machine must not turn a solver timeout into an alarm.  They are re-run two at a time with three times the
+	// budget (20..60 s) and every solver started at once; the stage as a whole is bounded (150 s).  The number retried is capped, so a change that breaks many
 	// obligations is still reported promptly.
 	var again []*Obligation
 	for _, o := range obls {
@@ -473,6 +473,7 @@ func discharge(obls []*Obligation, timeout int, verbose bool) {
 	}
 	if len(again) > 0 && len(again) <= 8 && os.Getenv("VCGO_NO_RETRY") == "" {
 		sem2 := make(chan struct{}, 2)
+		retryStart := time.Now()
 		for _, o := range again {
 			wg.Add(1)
 			go func(o *Obligation) {
@@ -496,9 +497,19 @@ func discharge(obls []*Obligation, timeout int, verbose bool) {
 				hyps = append(hyps, bitUFFacts(append(hyps, o.Goal))...)
 				qs = append(qs, &Query{Name: o.Name + ".retry", Hyps: hyps, Goal: o.Goal, NIA: o.NIA})
 				spent := first.Time
+				rt := 3 * t
+				if rt < 20 {
+					rt = 20
+				}
+				if rt > 60 {
+					rt = 60
+				}
 				for _, q := range qs {
+					if time.Since(retryStart) > 150*time.Second {
+						break // the retry stage as a whole is bounded
+					}
 					q.Eager = true
-					r := solve(q, 4*t)
+					r := solve(q, rt)
 					spent += r.Time
 					if r.Status == "unsat" || (r.Status == "sat" && q == qs[len(qs)-1]) {
 						r.Time = spent
